@@ -34,7 +34,7 @@ func init() {
 		ID: "C03", Level: "fault_enumeration",
 		Technique: "deterministic simulation with crash-point enumeration: every mutating file operation of a generated history (plus torn-write prefixes and nested crashes) is a crash image booted in a fresh simulated process and checked against the recovery-admissibility oracle, then driven on through GC and reopen",
 		Rule: "one case = a generated forward history (puts, removes, flushes, GC cycles, reopen) whose mutating file operations are crash points; quick boots a seeded sample of <= 24 crash images per history (incl. torn prefixes, 10% nested crashes), thorough boots every crash point with torn variants; " +
-			"each image: open must succeed, every key must read as its last-flushed value or a later acknowledged/in-flight one, Get/Has/GetSize agree, then follow-up ops + flush + fsck + 2 GC cycles of each kind + reopen + read-back; 30% of multihash histories are the background variant: the store's own flusher and collectors run on short simulated intervals (a cycle every 1-40 ms) under a random scheduler with one of three timing perturbations (preemption injection, site-directed stalls at a per-run subset of call sites, per-operation jitter), a busy-writer sub-variant on tiny files; there every remaining crash point of the forward schedule is booted too, with a light recovery check (reads, one flush, fsck); " +
+			"each image: open must succeed, every key must read as its last-flushed value or a later acknowledged/in-flight one, Get/Has/GetSize agree, then follow-up ops + flush + fsck + 2 GC cycles of each kind + reopen + read-back; 40% of multihash histories are the background variant: the store's own flusher and collectors run on short simulated intervals (a cycle every 1-40 ms) under a random scheduler with one of three timing perturbations (preemption injection, site-directed stalls at a per-run subset of call sites, per-operation jitter), a busy-writer sub-variant on tiny files; in the quick tier every crash image that was not sampled is triaged by the independent fsck (contents it reconstructs vs the admissible set; structural errors) and the suspicious ones (<= 40, <= 80 in the background variant) are booted with a light recovery check (reads, one flush, fsck); " +
 			"non-trivial = a history with at least one recovery booted; distinct = distinct (plan hash, schedule hash); distinct crash images are reported separately",
 		Nontrivial: func(o *RunOut) bool { return o.Probes["recoveries"] > 0 },
 		Assumptions: []string{
